@@ -259,6 +259,13 @@ struct SubCheck
     }
 };
 
+// true while the thorough tier runs (sub-checks may deepen what they do per index)
+inline bool& thorough_flag ()
+{
+    static bool f = false;
+    return f;
+}
+
 inline std::vector<SubCheck>& registry ()
 {
     static std::vector<SubCheck> r;
@@ -704,6 +711,7 @@ inline int main_impl (int argc, char** argv, const char* property)
     }
 
     bool   thorough = o.tier == "thorough";
+    thorough_flag () = thorough;
     auto   t0       = std::chrono::steady_clock::now ();
     std::string json = "{\n \"property\": \"" + o.property + "\", \"tier\": \"" + o.tier + "\", \"seed\": " + std::to_string (o.seed) + ", \"san\": " + (o.san_binary ? "true" : "false") + ",\n \"subchecks\": [\n";
     bool   first_sc = true;
